@@ -14,6 +14,8 @@ import VlsModel.Gen.FnSimpleMisc
 import VlsModel.Gen.FnB3Filter
 import VlsModel.Gen.FnB3OnchainPolicy
 import VlsModel.Gen.FnB3TestBuilder
+import VlsModel.Gen.FnB3NodeVal
+import VlsModel.Gen.FnB3ChannelVal
 import VlsModel.Gen.Chain
 import VlsModel.Lemmas.FnGen
 /-
@@ -1750,5 +1752,79 @@ example : FnB3Filter.PolicyFilter.filter { rules := [FnB3Filter.FilterRule.new_w
   constructor <;> (rw [(C05_fn_filter_rule_exact _ _).1]; simp)
 
 end B3
+
+/-! ### Round 10 (b3): **which** validator and **which** chain state a request is checked against
+
+`Gen.FnB3NodeVal` (node.rs: `Node::{validator, policy, network, validator_factory, get_id, get_channels}`) and
+`Gen.FnB3ChannelVal` (channel.rs: `Channel::{validator, network, get_chain_state, get_node}`, `ChannelStub::{validator,
+get_node}`).  Every `validate_*` call of C05 goes through one of these: the policy that `C05_main` speaks about is the
+one of the validator they return.  `make` is `ValidatorFactory::make_validator` (every implementation). -/
+
+section B3Val
+open VlsModel.Gen
+variable {F N P C S V M Pol CS : Type}
+
+/-- the node's accessors return the node's own fields -/
+theorem C05_fn_node_accessors (n : FnB3NodeVal.Node F N P C S) :
+    n.network = n.node_config.network ∧ n.validator_factory_fn = n.validator_factory ∧ n.get_id = n.node_id
+      ∧ n.get_channels = n.channels := ⟨rfl, rfl, rfl, rfl⟩
+
+/-- `Node::validator`: made by the node's **own** factory for the node's own network and id, without a channel id;
+    `Node::policy`: the same factory's policy for the same network -/
+theorem C05_fn_node_validator (make : F → N → P → Option C → V) (pol : F → N → Pol) (n : FnB3NodeVal.Node F N P C S) :
+    FnB3NodeVal.Node.validator make n = make n.validator_factory n.node_config.network n.node_id none
+      ∧ FnB3NodeVal.Node.policy pol n = pol n.validator_factory n.node_config.network := ⟨rfl, rfl⟩
+
+/-- `get_node`: the node the channel belongs to; `upgrade().unwrap()` panics exactly when it is gone -/
+theorem C05_fn_channel_get_node (c : FnB3ChannelVal.Channel N C M) (st : FnB3ChannelVal.ChannelStub N C) :
+    c.get_node = (match c.node with | some n => .ok n | none => .error .panic)
+      ∧ st.get_node = (match st.node with | some n => .ok n | none => .error .panic) := by
+  unfold FnB3ChannelVal.Channel.get_node FnB3ChannelVal.ChannelStub.get_node
+  constructor
+  · cases c.node <;> rfl
+  · cases st.node <;> rfl
+
+/-- `Channel::validator` / `ChannelStub::validator`: the factory, network and id are those **of the channel's node** (all three
+    read from the same node), the channel id is the channel's own `id0`; nothing else enters -/
+theorem C05_fn_channel_validator {Nd : Type} (vf : Nd → F) (net : Nd → N) (gid : Nd → P) (make : F → N → P → Option C → V)
+    (c : FnB3ChannelVal.Channel Nd C M) (st : FnB3ChannelVal.ChannelStub Nd C) :
+    FnB3ChannelVal.Channel.validator vf net gid make c
+        = (match c.node with | some n => .ok (make (vf n) (net n) (gid n) (some c.id0)) | none => .error .panic)
+      ∧ FnB3ChannelVal.ChannelStub.validator vf net gid make st
+        = (match st.node with | some n => .ok (make (vf n) (net n) (gid n) (some st.id0)) | none => .error .panic) := by
+  unfold FnB3ChannelVal.Channel.validator FnB3ChannelVal.ChannelStub.validator FnB3ChannelVal.Channel.network
+    FnB3ChannelVal.Channel.get_node FnB3ChannelVal.ChannelStub.get_node
+  constructor
+  · cases c.node <;> rfl
+  · cases st.node <;> rfl
+
+/-- both units together: with the node's translated accessors as the externals, a channel's validator differs from its
+    node's validator (`C05_fn_node_validator`) **only** in the channel id — same factory (hence same policy and filter),
+    same network, same node id.  A channel cannot be validated under another node's or a default policy. -/
+theorem C05_fn_channel_validator_is_node_factory (make : F → N → P → Option C → V) (n : FnB3NodeVal.Node F N P C S)
+    (c : FnB3ChannelVal.Channel (FnB3NodeVal.Node F N P C S) C M) (hn : c.node = some n) :
+    FnB3ChannelVal.Channel.validator FnB3NodeVal.Node.validator_factory_fn FnB3NodeVal.Node.network FnB3NodeVal.Node.get_id make c
+        = .ok (make n.validator_factory n.node_config.network n.node_id (some c.id0))
+      ∧ FnB3NodeVal.Node.validator make n = make n.validator_factory n.node_config.network n.node_id none := by
+  refine ⟨?_, rfl⟩
+  rw [(C05_fn_channel_validator _ _ _ _ c (⟨none, c.id0⟩ : FnB3ChannelVal.ChannelStub _ C)).1, hn]; rfl
+
+/-- `Channel::network`: the node's -/
+theorem C05_fn_channel_network {Nd : Type} (net : Nd → N) (c : FnB3ChannelVal.Channel Nd C M) :
+    FnB3ChannelVal.Channel.network net c = (match c.node with | some n => .ok (net n) | none => .error .panic) := by
+  unfold FnB3ChannelVal.Channel.network FnB3ChannelVal.Channel.get_node
+  cases c.node <;> rfl
+
+/-- `Channel::get_chain_state`: the chain state handed to the validator (the on-chain gate `C05_fn_ensure_funding_buried`
+    reads its depths) is `as_chain_state` of the channel's **own** monitor, for every implementation of `as_chain_state`
+    (the translated one: `C14_fn_as_chain_state`) -/
+theorem C05_fn_channel_get_chain_state {Nd : Type} (acs : M → CS) (c : FnB3ChannelVal.Channel Nd C M) :
+    FnB3ChannelVal.Channel.get_chain_state acs c = acs c.monitor := rfl
+
+example : FnB3ChannelVal.Channel.validator (fun (n : Nat) => n + 1) (fun n => n + 2) (fun n => n + 3)
+    (fun f nt p (c : Option Nat) => (f, nt, p, c)) (⟨some 10, 7, ()⟩ : FnB3ChannelVal.Channel Nat Nat Unit) = .ok (11, 12, 13, some 7) := by
+  rw [(C05_fn_channel_validator _ _ _ _ _ (⟨none, 0⟩ : FnB3ChannelVal.ChannelStub Nat Nat)).1]
+
+end B3Val
 
 end VlsModel.Props.C05Fn
